@@ -23,6 +23,15 @@ func getWithVar(doc *Document, docs []*Document, ec *EvalContext, m any) (any, e
 }
 
 func get(doc *Document, docs []*Document, m any) (any, error) {
+	ret, err := getRef(doc, docs, m)
+	if err != nil {
+		return nil, err
+	}
+
+	return deepClone(ret)
+}
+
+func getRef(doc *Document, docs []*Document, m any) (any, error) {
 	switch m2 := m.(type) {
 	case string:
 		return getPathFromString(doc.Data, docs, m2)
@@ -120,7 +129,7 @@ func getCross(docs []*Document, conf map[string]any) (any, error) {
 
 	found, path, _ := popMapValue(conf, "$path")
 	if found {
-		return get(doc, docs, path)
+		return getRef(doc, docs, path)
 	}
 
 	return doc.Data, nil
